@@ -116,6 +116,15 @@ def judge_c12(case, ctx, intent_known=True):
         ctx.violation("wellformed", form, "SIZE:%+d" % (len(b) - reserved),
                       witness(case, o, lines, {"bytes": b.hex(), "reserved": reserved}), traits)
         return
+    if exp is not None and intent_known:
+        # second sentence of C12: a value is never "encoded as something else" - an accepted statement whose operand value is known
+        # must carry that value (a field one size too small silently turns 16 into -16, 128 into -128, 256 into 0)
+        sym = compare(d, exp, case["canon"])
+        if sym in ("WRONG-FIELD:val", "WRONG-FIELD:off", "WRONG-FIELD:addr"):
+            ctx.outcome("encoded-as-another-value")
+            ctx.violation("value", form, "ENCODED-AS-ANOTHER-VALUE:" + sym.split(":")[1],
+                          witness(case, o, lines, {"bytes": b.hex(), "decoded": repr(d), "expected": exp}), traits)
+            return
     ctx.outcome("ok")
     ctx.cell("accepted/%s" % case["canon"])
     ctx.nontriv(lines[case["target"]])
